@@ -1025,6 +1025,11 @@ impl World for BoxWorld {
                 }
                 // ---- C04: totality
                 match &res {
+                    Err((_loc, msg)) if rf == RForm::ObjDecryptLocked && msg.contains("locked bytes") => {
+                        // the *environment* refused mlock (no CAP_IPC_LOCK / tiny RLIMIT_MEMLOCK):
+                        // that is not a statement about the repository
+                        out.harness_error(format!("this environment refuses mlock, the LockedBytes receiver cannot run: {}", msg));
+                    }
                     Err((loc, msg)) => {
                         out.probe("receiver.unwound");
                         out.violate(
